@@ -285,6 +285,37 @@ fn shapes_case<T: Sc>(rng: &mut Rng, case: u64, out: &mut CaseOut, orders: usize
     }
 }
 
+/// a valid problem over many basis functions (40..100) and a few hundred samples must come out of
+/// build() with residuals and coefficients like any other
+fn wide_case<T: Sc>(rng: &mut Rng, case: u64, out: &mut CaseOut) {
+    let stream = "many-basis-functions";
+    let m = rng.int(40, 100);
+    let n = m + rng.int(20, 160);
+    let p = rng.int(1, 2);
+    let model = table(rng, n, m, p);
+    let alpha0: Vec<f64> = (0..p).map(|_| rng.normal()).collect();
+    let (mrhs, par) = (rng.chance(0.5), rng.chance(0.5));
+    let cols = if mrhs { rng.int(1, 3) } else { 1 };
+    let y = Mat::from_fn(n, cols, |_, _| rng.normal() * 2.0);
+    let mut ops = vec![Op::Obs(y)];
+    if rng.chance(0.5) {
+        ops.push(Op::W((0..n).map(|_| rng.range(0.2, 2.0) * rng.sign()).collect()));
+    }
+    rng.shuffle(&mut ops);
+    let plan = Plan { model: model.clone(), alpha0: alpha0.clone(), mrhs, par, ops };
+    out.evals += 1;
+    match build_plan::<T>(&plan) {
+        Ok(prob) => {
+            out.nontrivial.push(crate::rng::hash_u64s([case, m as u64, n as u64]));
+            let s0 = snap(&prob, true);
+            if model.phi64::<T>(&alpha0).all_finite() && (s0.resid.is_none() || s0.coeff.is_none()) {
+                violation(out, stream, case, format!("the model evaluates at its initial parameters (N={n}, M={m}) but the built problem exposes no residuals/coefficients"), json!({"N": n, "M": m, "P": p}));
+            }
+        }
+        Err(e) => violation(out, stream, case, format!("valid problem (N={n}, M={m}) rejected: {e}"), json!({"N": n, "M": m})),
+    }
+}
+
 /// threshold semantics: |e| for a supplied epsilon, machine epsilon otherwise, last call wins
 fn threshold_case<T: Sc>(rng: &mut Rng, case: u64, out: &mut CaseOut) {
     let stream = "threshold";
@@ -359,12 +390,13 @@ fn threshold_case<T: Sc>(rng: &mut Rng, case: u64, out: &mut CaseOut) {
 }
 
 pub fn run(ctx: &Ctx) {
-    ctx.rule("shapes-and-orders: exhaustive grid model length 0..12 x Y rows 0..12 x columns 0..4 (1 for the single right-hand-side constructors) x weights {absent, len=rows, len=model length, other 0..13; values random / all exactly 1 / constant} x the four constructors (new, mrhs, new_parallel, mrhs_parallel), each with 3 (quick) / 8 (thorough) call orders (permutations of observations/weights/epsilon and repetitions whose earlier values must be overwritten), occasionally without any observations call; verdict Ok <=> the specification's set of violated requirements is empty, Err(kind) => kind in the set, and an InvalidLengthOfData error must carry the model's output length and the row count of the observations in effect; a quarter of the models evaluate only after their set_params has been called once (lazily primed); accepted problems: params() == model's initial parameters (bitwise), residuals/coefficients present, identical to an explicit set_params(initial), identical across call orders (bitwise, incl. weighted data). threshold: one-column model with singular value exactly s / one ulp above: epsilon(±s), no call (machine epsilon), repeated calls (last wins). non-trivial = accepted problems and rejections with exactly one violated requirement");
+    ctx.rule("[many-basis-functions: valid problems with 40..100 basis functions and 60..260 samples must expose residuals and coefficients after build] shapes-and-orders: exhaustive grid model length 0..12 x Y rows 0..12 x columns 0..4 (1 for the single right-hand-side constructors) x weights {absent, len=rows, len=model length, other 0..13; values random / all exactly 1 / constant} x the four constructors (new, mrhs, new_parallel, mrhs_parallel), each with 3 (quick) / 8 (thorough) call orders (permutations of observations/weights/epsilon and repetitions whose earlier values must be overwritten), occasionally without any observations call; verdict Ok <=> the specification's set of violated requirements is empty, Err(kind) => kind in the set, and an InvalidLengthOfData error must carry the model's output length and the row count of the observations in effect; a quarter of the models evaluate only after their set_params has been called once (lazily primed); accepted problems: params() == model's initial parameters (bitwise), residuals/coefficients present, identical to an explicit set_params(initial), identical across call orders (bitwise, incl. weighted data). threshold: one-column model with singular value exactly s / one ulp above: epsilon(±s), no call (machine epsilon), repeated calls (last wins). non-trivial = accepted problems and rejections with exactly one violated requirement");
     *ctx.exhaustive.lock().unwrap() = Some(true);
     let t = ctx.tier;
     let orders = t.pick(3, 16);
     let grid = 13 * 13 * 5 * 4 * 4;
     ctx.run_cases("shapes-and-orders", grid, t.pick(60.0, 600.0), |r, c, o| if c % 2 == 0 { shapes_case::<f64>(r, c, o, orders) } else { shapes_case::<f32>(r, c, o, orders) });
+    ctx.run_cases("many-basis-functions", t.pick(200, 6000), t.pick(20.0, 120.0), |r, c, o| if c % 2 == 0 { wide_case::<f64>(r, c, o) } else { wide_case::<f32>(r, c, o) });
     ctx.run_cases("threshold", t.pick(3000, 60000), t.pick(10.0, 60.0), |r, c, o| if c % 2 == 0 { threshold_case::<f64>(r, c, o) } else { threshold_case::<f32>(r, c, o) });
     ctx.extra("shape_grid", json!({"model_length": "0..12", "rows": "0..12", "cols": "0..4", "weights": 4, "constructors": 4, "combinations": grid}));
 }
